@@ -7,6 +7,7 @@ OBLIGATIONS = [
     "KafVerif.C13.commit_fenced",
     "KafVerif.C13.heartbeat_fenced",
     "KafVerif.C13.sync_fenced",
+    "KafVerif.C13.generation_mono",
     "KafVerif.C13.persisted_generation_current",
     "KafVerif.C13.race_commit_atomic",
     "KafVerif.C13.raceOld_violates",
@@ -24,7 +25,7 @@ LEVEL_TEXT = ("Lean 4 theorems about the executable model of GroupCoordinator: a
               "(witness). Tied to the source by the differential run, including two-request schedules through a gate in the store.")
 TECHNIQUE = "Lean 4 proof over a hand-written model + Go/Lean differential correspondence (incl. gated two-request schedules) + property monitor"
 
-PROFILE = G.profile(weights={"commit": 12, "hb": 10, "sync": 8, "race": 6, "leave": 4, "tick": 7, "fetch": 1, "fail": 0, "meta": 0,
+PROFILE = G.profile(etcd_quick=4, etcd_thorough=30, weights={"commit": 12, "hb": 10, "sync": 8, "race": 6, "leave": 4, "tick": 7, "fetch": 1, "fail": 0, "meta": 0,
                              "failover": 2},
                     stale_gen=30, timeouts=[10000, 20000, 30000])
 RULE = ("membership histories with commits/heartbeats/syncs from current, stale-generation, expired, departed and unknown members, "
